@@ -397,6 +397,21 @@ def transpose(t, d0, d1):
 
 def reshape(t, shape, is_view=False):
     t.check_fresh_view()
+    if getattr(t, 'nl', False):
+        from . import nonlin
+        lin = DataT(t.dims, np.empty(t.cells.shape, dtype=object), dtype=t.dtype, device=t.device)
+        # regroup the enumerated dims only: run the linear reshape on an index tensor and permute the cells with it
+        idx_cells = np.empty(t.cells.shape, dtype=object)
+        for i in np.ndindex(*t.cells.shape):
+            idx_cells[i] = ()
+        probe = DataT(t.dims, idx_cells, dtype=t.dtype, device=t.device)
+        r = reshape(probe, shape, is_view)
+        if [d for d in r.dims if d[0] == 'S'] != [d for d in t.dims if d[0] == 'S']:
+            return reshape(nonlin.rebase(t), shape, is_view)
+        out = DataT(r.dims, t.cells.reshape(r.cells.shape).copy(), dtype=t.dtype, device=t.device)
+        out.nl = True
+        out.contig = t.contig
+        return out
     shape = list(shape)
     if len(shape) == 1 and isinstance(shape[0], (tuple, list)):
         shape = list(shape[0])
